@@ -234,7 +234,8 @@ def runOp (K : Keys) (committedKeys : String) (lite : Bool) (sess : Option Sessi
       let p := absPos b
       let sms := sortStrs ((Spec.legalMoves p).map moveText)
       let sc := CR.ofBits (Spec.castleOk p .king) (Spec.castleOk p .queen)
-      s!"moves={commaOr ms} castle={(b.castlingAvailable none).idx} ## moves={commaOr sms} castle={sc.idx}")
+      -- c03: the near-universe self-consistency key of the harness; the model's answer is the constant "-" by theorem C03_iff
+      s!"moves={commaOr ms} castle={(b.castlingAvailable none).idx} c03=- ## moves={commaOr sms} castle={sc.idx} c03=-")
   | "mv" => (sess, withBoard fun b =>
       match parseMoveText (arg 2) with
       | none => "bad-move ## "
